@@ -291,6 +291,151 @@ pub fn ring_case() -> impl Strategy<Value = RingCase> {
         .prop_map(|((sq_log2, cq_double, sqe128, cqe32, sqpoll), sq_start, cq_start, ops)| RingCase { sq_log2, cq_double, sqe128, cqe32, sqpoll, sq_start, cq_start, ops })
 }
 
+// ------------------------------------------------------------------------------------------
+// "real": the same hand-over judged against the real kernel, on rings made by setup_io_uring
+// (the simulated kernel above never sees what set-up prepares: ring sizes that are not powers of
+// two, the submission index array, the offsets the kernel reports)
+// ------------------------------------------------------------------------------------------
+
+#[derive(Debug, Clone, Copy, Serialize, Deserialize, PartialEq)]
+pub enum ROp {
+    /// get_next_sqe_slot + fill (NOP carrying the next sequence number), up to k times
+    Fill(u8),
+    Flush,
+    /// io_uring_enter submitting everything that has been flushed
+    Enter,
+    /// get_next_cqe up to k times
+    Reap(u8),
+}
+
+#[derive(Debug, Clone, Serialize, Deserialize)]
+pub struct RealCase {
+    pub entries: u32,
+    pub ops: Vec<ROp>,
+}
+
+fn check_real(c: &RealCase) -> CaseResult {
+    use rusl::io_uring::{io_uring_enter, setup_io_uring};
+    use rusl::platform::IoUringEnterFlags;
+    let mut rep = CaseReport::new();
+    let sq_entries = c.entries.next_power_of_two();
+    let cq_entries = 2 * sq_entries;
+    let mut ring = match crate::runner::catch(|| setup_io_uring(c.entries, IoUringParamFlags::empty(), 0, 0)) {
+        Ok(Ok(r)) => r,
+        Ok(Err(e)) => crate::fail!("setup_io_uring|error", "setup_io_uring({}, no flags) failed: {e}", c.entries),
+        Err((loc, msg)) => crate::fail!(format!("setup_io_uring|panic|{loc}"), "{msg}"),
+    };
+    let fd = ring.fd;
+    let mut seq = 0u64; // next sequence number to stamp
+    let mut unflushed = 0u32; // filled, not flushed
+    let mut flushed = 0u32; // flushed, not handed to the kernel
+    let mut posted: VecDeque<u64> = VecDeque::new(); // completions the kernel owes us, in submission order
+    let mut submitted_total = 0u64;
+    let mut sq_was_full = false;
+    // every step is clamped so that the completion ring cannot overflow (overflow handling is the
+    // kernel's business, not the wrapper's)
+    let mut tail: Vec<ROp> = vec![ROp::Flush, ROp::Reap(255), ROp::Reap(255), ROp::Enter, ROp::Reap(255), ROp::Reap(255)];
+    let ops: Vec<ROp> = c.ops.iter().copied().chain(tail.drain(..)).collect();
+    for (step, op) in ops.iter().enumerate() {
+        match *op {
+            ROp::Fill(k) => {
+                for _ in 0..k {
+                    let in_ring = unflushed + flushed;
+                    let slot = no_panic("IoUring::get_next_sqe_slot", || ring.get_next_sqe_slot().map(|p| p as usize))?;
+                    match slot {
+                        None => {
+                            ensure!(in_ring >= sq_entries, "real|get_next_sqe_slot|none-while-free", "step {step}: None with {in_ring} of {sq_entries} slots in use (setup_io_uring({}))", c.entries);
+                            sq_was_full = true;
+                            break;
+                        }
+                        Some(p) => {
+                            ensure!(in_ring < sq_entries, "real|get_next_sqe_slot|some-while-full", "step {step}: a slot was handed out although all {sq_entries} are in use (setup_io_uring({}))", c.entries);
+                            unsafe {
+                                core::ptr::write_bytes(p as *mut u8, 0, 64);
+                                ((p + 32) as *mut u64).write(0x5EED_0000_0000 + seq);
+                            }
+                            seq += 1;
+                            unflushed += 1;
+                        }
+                    }
+                }
+            }
+            ROp::Flush => {
+                no_panic("IoUring::flush_submission_queue", || ring.flush_submission_queue())?;
+                flushed += unflushed;
+                unflushed = 0;
+            }
+            ROp::Enter => {
+                // never more than the completion ring can take on top of what is not yet reaped
+                let room = cq_entries as usize - posted.len();
+                let n = (flushed as usize).min(room) as u32;
+                if n == 0 {
+                    continue;
+                }
+                let r = match no_panic("io_uring_enter", || io_uring_enter(fd, n, 0, IoUringEnterFlags::empty()))? {
+                    Ok(r) => r,
+                    Err(e) => crate::fail!("real|io_uring_enter|error", "step {step}: io_uring_enter(to_submit {n}) failed: {e}"),
+                };
+                ensure!(r == n as usize, "real|io_uring_enter|consumed-count", "step {step}: the kernel consumed {r} of the {n} submissions that were filled and flushed (setup_io_uring({}), {sq_entries} slots)", c.entries);
+                for i in 0..n as u64 {
+                    posted.push_back(0x5EED_0000_0000 + submitted_total + i);
+                }
+                submitted_total += n as u64;
+                flushed -= n;
+            }
+            ROp::Reap(k) => {
+                for _ in 0..k {
+                    let got = no_panic("IoUring::get_next_cqe", || ring.get_next_cqe().map(|e| (e.0.user_data, e.0.res)))?;
+                    match (got, posted.front().copied()) {
+                        (None, None) => break,
+                        (None, Some(ud)) => crate::fail!("real|get_next_cqe|none-while-pending", "step {step}: None although {} completions are pending (next user_data {ud:#x})", posted.len()),
+                        (Some((ud, _)), None) => crate::fail!("real|get_next_cqe|some-while-empty", "step {step}: completion with user_data {ud:#x} although nothing is pending"),
+                        (Some((ud, res)), Some(want)) => {
+                            if ud != want {
+                                let kind = if posted.contains(&ud) { "out-of-order" } else if ud >= 0x5EED_0000_0000 && ud < 0x5EED_0000_0000 + submitted_total { "duplicate" } else { "foreign" };
+                                crate::fail!(format!("real|completion|{kind}"), "step {step}: completion carries user_data {ud:#x}, the next submission the kernel was given is {want:#x} (setup_io_uring({}), {sq_entries} slots, {submitted_total} submitted so far): a submission was lost, repeated or reordered on its way to the kernel", c.entries);
+                            }
+                            ensure!(res == 0, "real|completion|nop-result", "step {step}: NOP {ud:#x} completed with {res}");
+                            posted.pop_front();
+                        }
+                    }
+                }
+            }
+        }
+    }
+    ensure!(posted.is_empty() && flushed == 0, "real|harness|left-over", "harness bug: {} completions / {flushed} submissions left", posted.len());
+    no_panic("IoUring::drop", move || drop(ring))?;
+    rep.nontrivial_if(submitted_total > u64::from(sq_entries));
+    rep.class_if(!c.entries.is_power_of_two(), "entries-not-power-of-two");
+    rep.class_if(c.entries.is_power_of_two(), "entries-power-of-two");
+    rep.class_if(submitted_total > u64::from(sq_entries), "sq-slots-cycled");
+    rep.class_if(submitted_total > 3 * u64::from(sq_entries), "sq-slots-cycled-3x");
+    rep.class_if(sq_was_full, "sq-full-none");
+    rep.class_if(c.entries == 1, "ring-size-1");
+    Ok(rep)
+}
+
+pub fn real_case() -> impl Strategy<Value = RealCase> {
+    let op = prop_oneof![
+        5 => (1u8..=9).prop_map(ROp::Fill),
+        3 => Just(ROp::Flush),
+        3 => Just(ROp::Enter),
+        3 => (1u8..=12).prop_map(ROp::Reap),
+    ];
+    (prop_oneof![4 => 1u32..=9, 2 => 10u32..=40, 1 => Just(64u32), 1 => Just(100u32)], prop::collection::vec(op, 0..120)).prop_map(|(entries, ops)| RealCase { entries, ops })
+}
+
 pub fn run(ctx: &Ctx) {
     ctx.run_prop("ring", ctx.cases(6000, 250_000), ring_case(), check_ring);
+    // the real kernel, on rings produced by setup_io_uring
+    if ctx.is_replay() || real_available() {
+        ctx.run_prop("real", ctx.cases(1500, 40_000), real_case(), check_real);
+    } else {
+        ctx.inconclusive();
+        eprintln!("[C17] io_uring_setup is not available here: the real-kernel sub-check was skipped");
+    }
+}
+
+fn real_available() -> bool {
+    matches!(crate::runner::catch(|| rusl::io_uring::setup_io_uring(4, IoUringParamFlags::empty(), 0, 0).is_ok()), Ok(true))
 }
